@@ -7,7 +7,7 @@
     Model/Delta.v - the list-walking function C01 / C16 are about - computes the same delta for every signature whose
     block size is the (positive) block size of the model and every source, given fuel for one iteration per source byte. *)
 From Coq Require Import ZArith List Bool Arith Lia.
-From Copia Require Import Gen.Constants Model.LoopLib Model.Checksum Model.Delta Gen.ScanGen.
+From Copia Require Import Gen.Constants Model.LoopLib Model.Checksum Model.Delta Gen.SigTableGen Proofs.TieSigTable Gen.ScanGen.
 Import ListNotations.
 Open Scope Z_scope.
 
@@ -134,11 +134,14 @@ Proof.
   destruct src as [|x0 src0] eqn:Esrc; [reflexivity|]. rewrite <- Esrc.
   assert (Hl : (lenZ src =? 0) = false) by (apply Z.eqb_neq; rewrite Esrc; unfold lenZ; cbn [length]; lia).
   rewrite Hl.
+  (* the lookup table is an index of the block list (Proofs/TieSigTable.v) *)
+  pose proof (fun w data => tie_table digest H deq sg w data) as HT. unfold table_of in HT.
+  rewrite (proj2 (proj2 (HT 0 []))).
   destruct (s_blocks digest sg) as [|b0 bl] eqn:Esg.
   { cbn. unfold dfinish, dpush_lit, dset. cbn. rewrite Esrc. reflexivity. }
   rewrite <- Esg.
   assert (Ht : (lenZ (s_blocks digest sg) =? 0) = false) by (apply Z.eqb_neq; rewrite Esg; unfold lenZ; cbn [length]; lia).
-  rewrite Ht. rewrite firstn_min.
+  rewrite <- Esg in HT. rewrite Ht. rewrite firstn_min.
   set (d0 := Build_delta digest (w32 bsz) (lenZ src) (s_file_size digest sg) [] (H src)).
   match goal with
   | |- match while_loop fuel ?c ?b ?s with _ => _ end = _ =>
@@ -155,6 +158,7 @@ Proof.
   - intros r p st Hc. unfold mstep, lookup.
     replace (Z.to_nat (Z.of_nat p + bsz - Z.of_nat p)) with bs by (unfold Delta.bsz; lia).
     rewrite Nat2Z.id.
+    rewrite (proj1 (HT (frc_digest st) [])), (proj1 (proj2 (HT (frc_digest st) (firstn bs (skipn p src))))).
     destruct (has_weak digest (s_blocks digest sg) (frc_digest st)).
     + destruct (find_match digest H deq (s_blocks digest sg) (frc_digest st) (firstn bs (skipn p src))) as [b|].
       * unfold dpush_copy, dset. cbn [d_ops d_block_size d_source_size d_basis_size d_checksum].
